@@ -69,8 +69,15 @@ pub fn filter_matches<L: Locale>(requested: &[LanguageIdentifier], available: &[
         // 1) Try to find a simple (case-insensitive) string match for the request.
         test_strategy!(false);
 
-        // 2) Try to match against the available locales treated as ranges.
+        // 2) Try to match against the available locales treated as ranges,
+        // the most specific ones first, without going ahead of the matches of a previous (preferred) request.
+        let range_matches_start = supported_locales.len();
         test_strategy!(true);
+        supported_locales[range_matches_start..].sort_by(|x, y| {
+            let x_specificity = into_specificity(x.as_ref());
+            let y_specificity = into_specificity(y.as_ref());
+            x_specificity.cmp(&y_specificity).reverse()
+        });
 
         // Per Unicode TR35, 4.4 Locale Matching, we don't add likely subtags to
         // requested locales, so we'll skip it from the rest of the steps.
@@ -78,12 +85,6 @@ pub fn filter_matches<L: Locale>(requested: &[LanguageIdentifier], available: &[
             continue;
         }
     }
-
-    supported_locales.sort_by(|x, y| {
-        let x_specificity = into_specificity(x.as_ref());
-        let y_specificity = into_specificity(y.as_ref());
-        x_specificity.cmp(&y_specificity).reverse()
-    });
 
     supported_locales
 }
